@@ -209,7 +209,8 @@ func init() {
 						forms["through a parent directory (..)"] = []string{"-i", abs + "/../gontainer/gontainer.yaml", "-i", abs + "/../gontainer/gontainer_*.yaml"}
 						forms["relative, through .. from a sibling directory"] = []string{"cwd=internal/cmd", "-i", "../gontainer/gontainer.yaml", "-i", "../gontainer/gontainer_*.yaml"}
 						// the environment is not an input of the self-compilation either
-						for ei, env := range [][]string{{"COLUMNS=0"}, {"COLUMNS=24", "LINES=5"}, {"COLUMNS=", "TERM=dumb"}, {"COLUMNS=wide", "NO_COLOR=1"}, {"COLUMNS=100000", "CLICOLOR_FORCE=1", "TZ=Asia/Tokyo", "LANG=tr_TR.UTF-8"}, {"HOME=/nonexistent", "TMPDIR=/nonexistent", "GOFLAGS=-mod=vendor", "GOOS=plan9"}} {
+						for ei, env := range [][]string{{"COLUMNS=0"}, {"COLUMNS=24", "LINES=5"}, {"COLUMNS=", "TERM=dumb"}, {"COLUMNS=wide", "NO_COLOR=1"}, {"COLUMNS=100000", "CLICOLOR_FORCE=1", "TZ=Asia/Tokyo", "LANG=tr_TR.UTF-8"}, {"HOME=/nonexistent", "TMPDIR=/nonexistent", "GOFLAGS=-mod=vendor", "GOOS=plan9"},
+							{"TMPDIR=/dev/shm"}, {"TMPDIR=/proc/self", "TMP=/proc/self"}, {"TMPDIR=/"}} {
 							forms[fmt.Sprintf("environment %d %v", ei, env)] = append([]string{"env=" + strings.Join(env, "\x00")}, "-i", "internal/gontainer/gontainer.yaml", "-i", "internal/gontainer/gontainer_*.yaml")
 						}
 						for name, args := range forms {
